@@ -106,6 +106,36 @@ theorem wrun_gov : ∀ (ops : List WOp) (w : World), (∃ gops, w.gov = run init
     · exact ⟨gops, e.trans hg⟩
     · exact ⟨gops ++ [gop], by rw [e, hg, run_snoc']⟩
 
+/-- … and a gov operation that is `opNoGovSpend` whenever the operation of the combined machine is `wopNoGovSpend` -/
+theorem wstep_gov_clean (w : World) (op : WOp) (hop : wopNoGovSpend op = true) :
+    (wstep w op).1.gov = w.gov ∨ ∃ gop, (wstep w op).1.gov = (step w.gov gop).1 ∧ opNoGovSpend gop = true := by
+  cases op with
+  | gov op => cases op <;> exact Or.inr ⟨_, rfl, by first | exact hop | rfl⟩
+  | genesis st => simp only [wstep]; split <;> exact Or.inl rfl
+  | delegate who val amt =>
+    simp only [wstep]
+    split
+    · exact Or.inl rfl
+    · split <;> exact Or.inr ⟨.spend who amt, rfl, rfl⟩
+  | slash val factor => exact Or.inl rfl
+
+theorem noGovSpend_snoc {gops : List Op} {gop : Op} (h1 : NoGovSpend gops = true) (h2 : opNoGovSpend gop = true) :
+    NoGovSpend (gops ++ [gop]) = true := by
+  simp only [NoGovSpend, List.all_append, List.all_cons, List.all_nil, Bool.and_true, Bool.and_eq_true] at h1 ⊢
+  exact ⟨h1, h2⟩
+
+theorem wrun_gov_clean : ∀ (ops : List WOp), WNoGovSpend ops = true → ∀ (w : World),
+    (∃ gops, w.gov = run init gops ∧ NoGovSpend gops = true) → ∃ gops, (wrun w ops).gov = run init gops ∧ NoGovSpend gops = true := by
+  intro ops
+  induction ops with
+  | nil => intro _ w h; exact h
+  | cons o r ih =>
+    intro hc w ⟨gops, hg, hcl⟩
+    have hc' : wopNoGovSpend o = true ∧ WNoGovSpend r = true := by simpa [WNoGovSpend] using hc
+    refine ih hc'.2 _ ?_
+    rcases wstep_gov_clean w o hc'.1 with e | ⟨gop, e, hgop⟩
+    · exact ⟨gops, e.trans hg, hcl⟩
+    · exact ⟨gops ++ [gop], by rw [e, hg, run_snoc'], noGovSpend_snoc hcl hgop⟩
 
 /-! ### the recorded delegations to a validator never exceed its delegator shares -/
 
